@@ -44,6 +44,10 @@ type VerifElem struct {
 	NumLinked int
 	TagLevel  int
 	Offset    int
+	Start     int
+	End       int
+	FirstWord int
+	LastWord  int
 	Text      string
 	TagName   string
 	TagStart  bool
@@ -104,6 +108,7 @@ func VerifDumpDoc(doc *webdoc.Document) []VerifElem {
 			}
 			ve.Group, ve.NumWords, ve.NumLinked = x.GroupNumber, x.NumWords, x.NumLinkedWords
 			ve.TagLevel, ve.Offset, ve.Text = x.TagLevel, x.OffsetBlock, x.Text
+			ve.Start, ve.End, ve.FirstWord, ve.LastWord = x.Start, x.End, x.FirstWordNode, x.LastWordNode
 		case *webdoc.Tag:
 			ve.TagName, ve.TagStart = x.Name, x.Type == webdoc.TagStart
 		case *webdoc.Figure:
